@@ -47,6 +47,8 @@ type childViol struct {
 	Size  int             `json:"size"`
 	Case  string          `json:"case"`
 	Input json.RawMessage `json:"input"`
+	// Observe: recorded, not reported (C16 state right after the event handlers, repaired by the next full sync)
+	Observe bool `json:"observe,omitempty"`
 }
 
 func quietKlog() {
@@ -129,6 +131,7 @@ func childCases(sp *childSpec) int {
 	}
 	defer jf.Close()
 	best := map[string]*childViol{}
+	bestObs := map[string]*childViol{}
 	note := func(sig, msg string, count int, input interface{}, size int, idx int) {
 		run.Count("viol:"+sig, int64(count))
 		if b, ok := best[sig]; ok {
@@ -176,6 +179,22 @@ func childCases(sp *childSpec) int {
 			}
 			for sig, v := range r.viols {
 				note(sig, v.Msg, v.Count, tc, tc.size(), idx)
+			}
+			for sig, v := range r.obs {
+				if b, ok := bestObs[sig]; ok {
+					b.Count += v.Count
+					if tc.size() >= b.Size {
+						continue
+					}
+				}
+				raw, _ := json.Marshal(map[string]interface{}{"transition": tc, "events_delivered": diffToEvents(tc.A, tc.B, tc.EventSeed),
+					"observation": v.Flow})
+				n := v.Count
+				if b, ok := bestObs[sig]; ok {
+					n = b.Count
+				}
+				bestObs[sig] = &childViol{Sig: sig, Msg: v.Msg, Count: n, Size: tc.size(), Input: raw,
+					Case: fmt.Sprintf("%d:%d", sp.Seed, idx), Observe: true}
 			}
 			if idx < 40 && idx%13 == 1 {
 				run.Sample(map[string]interface{}{"case": idx, "transition": tc, "mismatch_signatures": keysOf(r.viols)})
@@ -243,6 +262,9 @@ func childCases(sp *childSpec) int {
 	journal(jf, "done")
 	var list []*childViol
 	for _, b := range best {
+		list = append(list, b)
+	}
+	for _, b := range bestObs {
 		list = append(list, b)
 	}
 	sort.Slice(list, func(i, j int) bool { return list[i].Sig < list[j].Sig })
@@ -423,6 +445,7 @@ func parentMain(fl *evid.Flags) int {
 		shards = append(shards, &shard{from: f, to: t})
 	}
 	best := map[string]*bestViol{}
+	observed := map[string]*bestViol{}
 	var mu sync.Mutex
 	sem := make(chan struct{}, par)
 	var wg sync.WaitGroup
@@ -463,6 +486,18 @@ func parentMain(fl *evid.Flags) int {
 		_ = json.Unmarshal(vd, &list)
 		mu.Lock()
 		for _, v := range list {
+			if v.Observe {
+				if o, ok := observed[v.Sig]; !ok {
+					observed[v.Sig] = &bestViol{childViol: *v, total: v.Count}
+				} else {
+					o.total += v.Count
+					if v.Size < o.Size {
+						t := o.total
+						*o = bestViol{childViol: *v, total: t}
+					}
+				}
+				continue
+			}
 			b, ok := best[v.Sig]
 			if !ok {
 				best[v.Sig] = &bestViol{childViol: *v, total: v.Count}
@@ -531,6 +566,15 @@ func parentMain(fl *evid.Flags) int {
 		run.Violate(v)
 	}
 	run.Set("signatures_seen", sigs)
+	if len(observed) > 0 {
+		obsOut := map[string]interface{}{}
+		for s, o := range observed {
+			var in interface{}
+			_ = json.Unmarshal(o.Input, &in)
+			obsOut[s] = map[string]interface{}{"flows": o.total, "smallest_case": o.Case, "what": o.Msg, "witness": in}
+		}
+		run.Set("after_events_only_observations_not_violations", obsOut)
+	}
 
 	// floors: a run that did not see the situations the property is about is inconclusive
 	if fl.Prop == "C16" {
